@@ -11,7 +11,12 @@ inside and/or) to helper rules that only the files define - and that the
 history rewrites, removes and re-creates - and to other registered defaults
 that the files override.  The check objects of registered defaults live as long
 as the enforcer, so anything they remember about a referenced rule must not
-outlive the file that defined it."""
+outlive the file that defined it.
+
+Stratum F: the default-rule fallback.  The rule named by `policy_default_rule` (`default` or another name) is supplied
+by a layer other than the one the history is removing - a policy.d file, a registered default, the main file - and the
+decisions compared include names defined NOWHERE and rules whose `rule:` references point at undefined names, over
+histories that delete / empty / re-create the main file and the directory file."""
 import itertools
 import os
 import re
@@ -36,7 +41,12 @@ RULE = ('histories over {write content A/B, empty, touch, delete (a later write 
         're-create the referenced rules (every history up to length 2 over an 8-operation alphabet x 2 default sets x '
         'with/without main file, plus random histories of 8-25 steps with random reference-carrying default sets and '
         'contents, some steps without an enforcement in between); decisions for all names x single- and two-role '
-        'credentials; non-trivial there = a file changes after the first load.')
+        'credentials; non-trivial there = a file changes after the first load. '
+        'F = the same differential on the default-rule fallback: policy_default_rule is `default` or another name, the rule of that '
+        'name comes from the main file, a policy.d file, a registered default or nowhere, and the compared names include names '
+        'defined nowhere and (plain / deprecated) defaults and file rules with rule: references to undefined names, over every '
+        'history up to length 2 of {write with/without the default rule, empty, delete} on the main file and d1/a.yaml x 6 initial '
+        'configurations, plus random histories of 8-25 steps (re-creation after deletion included).')
 ASSUMPTIONS = ['each change advances modification times: enforced by the harness with a logical clock (file and directory)',
                'directories themselves are never removed; rule contents never create reference cycles',
                'the fresh enforcer is built with the same options and freshly constructed equal defaults']
@@ -46,12 +56,13 @@ LEVEL_TEXT = ('All histories up to length 2 (thorough: 3) over a 22-operation al
 LEVEL_NOTE = 'trusted: a newly constructed Enforcer as the oracle of "what the current files mean"; os.utime for the clock'
 PLAN = {'quick': dict(shards=8, wall=150), 'thorough': dict(shards=16, wall=500)}
 MIN = {'steps_where_the_fresh_enforcer_decides_first': 300, 'evaluations': 1000, 'steps_compared': 3000, 'deletions': 300, 'reloads_observed': 500,
-       'ref_default_steps': 300, 'ref_target_changes': 100}
+       'ref_default_steps': 300, 'ref_target_changes': 100,
+       'fallback_steps': 250, 'fallback_steps_main_file_gone': 60, 'fallback_steps_undefined_name_allowed': 80}
 ANCHORS = ['oslo_policy._cache_handler:read_cached_file', 'oslo_policy.policy:Enforcer._is_directory_updated',
            'oslo_policy.policy:Enforcer.load_rules', 'oslo_policy.policy:Enforcer._load_policy_file',
            'oslo_policy.policy:Enforcer.enforce']
 REQUIRED_ANCHORS = ['oslo_policy.policy:Enforcer.enforce', 'oslo_policy.policy:Enforcer.load_rules']
-BOUNDS = {'quick': dict(L=2, nR=150, gL=2, nG=64), 'thorough': dict(L=3, nR=20000, gL=3, nG=800)}
+BOUNDS = {'quick': dict(L=2, nR=150, gL=2, nG=64, nF=48), 'thorough': dict(L=3, nR=20000, gL=3, nG=800, nF=600)}
 
 NAMES = ['n1', 'n2', 'n3', 'old1', 'new1']
 ROLES = ['a', 'b', 'c', 'd', 'o', 'n']
@@ -78,6 +89,76 @@ REF_FORMS = ['rule:%s', 'not rule:%s', 'role:d and rule:%s', 'role:c or rule:%s'
              '(rule:%s and role:d) or role:o', 'rule:%s and rule:%s', 'rule:%s or not rule:%s', 'not (rule:%s or role:a)']
 _REF = re.compile(r'rule:([A-Za-z0-9_]+)')
 
+# -- stratum F: the default-rule fallback ---------------------------------------------------------------------------
+# u1 is defined nowhere and referenced by nothing; u2, u3 are defined nowhere and referenced by defaults / file rules.
+# The default rule itself is always reference-free (a reference from it to an undefined name would be a cycle).
+UNDEF = ['u1', 'u2', 'u3']
+F_OPTS = ['default', 'fb1']
+F_FILES = ['policy.yaml', 'd1/a.yaml']
+F_CREDS = [['a'], ['b'], ['c'], ['d'], ['o'], ['d', 'a']]
+F_PLAIN = [['n1', 'role:d'], ['g1', 'rule:u2'], ['g2', 'not rule:u2'], ['g3', 'role:c or rule:u2'],
+           ['g4', 'rule:h1 and role:d'], ['new1', 'rule:u2 or role:n', ['old1', 'role:o']]]
+F_DEFAULT_LEAVES = ['role:a', 'role:b', 'role:d', '@', 'not role:c', 'role:a or role:o']
+
+
+def f_registered(opt):
+    return [[opt, 'role:d'], ['n1', 'role:c'], ['g1', 'rule:u2 and rule:h1'], ['g2', 'not rule:u3 or role:o'],
+            ['g3', 'rule:g1 or role:a']]
+
+
+def f_content(opt):
+    return {'P': files.render({'n1': 'role:c', 'h1': 'role:b'}, 'json'),
+            'D': files.render({opt: 'role:a', 'h1': 'rule:u3'}, 'json')}
+
+
+def f_configs():
+    """(option value, main file, d1/a.yaml, registered defaults): where the default rule comes from"""
+    out = []
+    for opt in F_OPTS:
+        c = f_content(opt)
+        out += [(opt, c['P'], c['D'], F_PLAIN),             # from the directory file
+                (opt, c['P'], None, f_registered(opt))]     # from a registered default
+        if opt == F_OPTS[0]:
+            out += [(opt, c['D'], c['P'], F_PLAIN),             # from the main file
+                    (opt, None, c['D'], f_registered(opt))]     # no main file at first: directory file over registered default
+    return out
+
+
+def rnd_fb_defs(rnd, opt):
+    defs = [['n1', 'role:d']]
+    if rnd.random() < 0.5:
+        defs.append([opt, rnd.choice(F_DEFAULT_LEAVES)])
+    targets = HELPERS + ['u2', 'u2', 'u3', 'n1']
+    if rnd.random() < 0.4:
+        defs.append(['new1', rnd.choice(['rule:u2 or role:n', 'rule:' + rnd.choice(HELPERS), 'role:n']), ['old1', 'role:o']])
+        targets = targets + ['new1']
+    for i in range(1, rnd.randint(3, 6)):
+        form = rnd.choice(REF_FORMS)
+        defs.append(['g%d' % i, form % tuple(rnd.choice(targets) for _ in range(form.count('%s')))])
+        targets = targets + ['g%d' % i]
+    return defs
+
+
+def rnd_fb_content(rnd, opt, p_default):
+    d = {}
+    if rnd.random() < p_default:
+        d[opt] = rnd.choice(F_DEFAULT_LEAVES)
+    for n in rnd.sample(HELPERS * 2 + ['n1', 'n1', 'old1', 'new1', 'g1', 'g2'], rnd.randint(0, 3)):
+        if n in d:
+            continue
+        x = rnd.random()
+        higher = HELPERS[HELPERS.index(n) + 1:] if n in HELPERS else []
+        if x < 0.3:
+            d[n] = rnd.choice(['rule:%s', 'rule:%s or role:c', 'not rule:%s']) % rnd.choice(['u2', 'u3'])
+        elif higher and x < 0.45:
+            d[n] = 'rule:' + rnd.choice(higher)
+        elif n == 'old1' and x < 0.5:
+            d[n] = 'rule:new1'
+        else:
+            d[n] = 'role:' + rnd.choice(ROLES[:4])
+    fmt = rnd.choice(['json', 'yaml-lines', 'yaml'])
+    return files.render(d, fmt) if d or fmt == 'json' else ''
+
 
 def make_ref_defaults(policy, defs):
     out = []
@@ -103,6 +184,12 @@ def case_space(case):
     for n in [d[0] for d in defs] + HELPERS + ['n1', 'old1', 'new1']:
         if n not in names:
             names.append(n)
+    fb = case.get('fb')
+    if fb:
+        for n in [fb['opt'], 'default'] + UNDEF:
+            if n not in names:
+                names.append(n)
+        return names, F_CREDS
     return names, G_CREDS
 
 
@@ -186,12 +273,19 @@ def run_history(ctx, case):
         refs = referenced(defs) if defs is not None else []
         skip = set(case.get('skip') or ())
 
+        fb = case.get('fb')                        # stratum F: which rule name is the fallback
+        conf_kw = dict(enforce_new_defaults=flag)
+        if fb:
+            conf_kw['policy_default_rule'] = fb['opt']
+
         def mk():
-            e = policy.Enforcer(tree.conf(enforce_new_defaults=flag))
+            e = policy.Enforcer(tree.conf(**conf_kw))
             e.register_defaults(make_ref_defaults(policy, defs) if defs is not None else make_defaults(policy, case['kind']))
             return e
         if case['initial'] is not None:
             tree.write_text('policy.yaml', case['initial'])
+        for rel, text in sorted((case.get('files0') or {}).items()):
+            tree.write_text(rel, text)
         enf = mk()
         if case.get('warm', True):
             decisions(enf, names, creds)         # the service has been running: first load done
@@ -246,14 +340,22 @@ def run_history(ctx, case):
                 want = decisions(fresh, names, creds)
             loaded = True
             ctx.count('steps_compared')
-            if defs is not None:
+            if defs is not None and not fb:
                 ctx.count('ref_default_steps')
+            if fb:
+                ctx.count('fallback_steps')
+                if main_seen and not tree.exists('policy.yaml'):
+                    ctx.count('fallback_steps_main_file_gone')
+                if any(want.get('u1/' + '+'.join(c)) is True for c in creds):
+                    ctx.count('fallback_steps_undefined_name_allowed')   # the fallback really decides something
             if got != want:
                 diff = {k: [got[k], want[k]] for k in got if got[k] != want[k]}
                 excs = [v[0] for v in diff.values() if isinstance(v[0], str)]
                 if excs:
                     key = 'main-file-deleted' if (not tree.exists('policy.yaml') and main_seen and 'TypeError' in excs[0]) \
                         else 'enforce-raises-' + excs[0].split(':')[1]
+                elif fb and any(k.split('/')[0] in UNDEF for k in diff):
+                    key = 'default-rule-fallback-diverges-from-fresh-enforcer'
                 else:
                     key = 'diverges-from-fresh-enforcer'
                 ctx.violation(key, case, {'step': i, 'history_prefix': hist[:i + 1], 'long_lived_vs_fresh': dict(list(diff.items())[:6]),
@@ -266,12 +368,15 @@ def run_history(ctx, case):
                                'long_lived': {k: v for k, v in pg.items() if pw.get(k) != v},
                                'fresh': {k: v for k, v in pw.items() if pg.get(k) != v}})
                 return
-            if defs is not None:
+            if defs is not None and not fb:
                 now = {n: pw.get(n) for n in refs}
                 if was_loaded and seen_targets is not None and now != seen_targets:
                     ctx.count('ref_target_changes')   # a referenced rule changed meaning between two enforcements
                 seen_targets = now
-        if defs is not None:
+        if fb:
+            ctx.case([case['initial'], case.get('files0'), fb, defs, case['flag'], hist, sorted(skip)], nontrivial=changed_after_load,
+                     stratum=case['s'])
+        elif defs is not None:
             ctx.case([case['initial'], defs, case['flag'], hist, sorted(skip)], nontrivial=changed_after_load, stratum=case['s'])
         else:
             ctx.case([case['initial'], case['kind'], case['flag'], hist], nontrivial=nontrivial, stratum=case['s'])
@@ -303,6 +408,7 @@ def rnd_content(rnd):
 def run(ctx):
     contracts.load_rules_keeps_defaults()
     b = BOUNDS[ctx.tier]
+    run_fallback(ctx, b)
     idx = 0
     done = True
     inits = [None, files.render(CONTENT['A'], 'json')]
@@ -394,6 +500,54 @@ def run_refs(ctx, b):
         if i % 4 == 0:
             ctx.sample(dict(case, history=case['history'][:8] + ['...']), 'GR')
     ctx.stratum('GR', exhaustive=False)
+
+
+def run_fallback(ctx, b):
+    """Stratum F (own random streams; runs first: it is small and must not be the one a cut budget loses)."""
+    idx = 0
+    done = True
+    for L in range(1, b['gL'] + 1):
+        for ci, (opt, main, dfile, defs) in enumerate(f_configs()):
+            c = f_content(opt)
+            alphabet = ([['write', f, {'text': c[k]}] for f in F_FILES for k in 'PD'] + [['empty', f] for f in F_FILES] +
+                        [['delete', f] for f in F_FILES])
+            for hist in itertools.product(range(len(alphabet)), repeat=L):
+                idx += 1
+                if not ctx.mine(idx):
+                    continue
+                if L > 2 and ctx.expired():
+                    done = False
+                    continue
+                case = dict(s='F', initial=main, files0={'d1/a.yaml': dfile} if dfile is not None else {}, kind=0,
+                            flag=bool((idx // 3) % 2), fb={'opt': opt}, defs=defs, history=[alphabet[i] for i in hist])
+                run_history(ctx, case)
+                if idx % 60 == 0:
+                    ctx.sample(case, 'F')
+    ctx.stratum('F', exhaustive=done)
+    for i in range(b['nF'] // ctx.nshards + 1):
+        if i >= 6 and ctx.expired():
+            break
+        rnd = ctx.sub_rnd('F', ctx.tier, ctx.shard, i)
+        opt = rnd.choice(F_OPTS)
+        defs = rnd_fb_defs(rnd, opt)
+        hist = []
+        for _ in range(rnd.randint(8, 25)):
+            op = rnd.choice(['write', 'write', 'write', 'empty', 'touch', 'delete', 'delete', 'load', 'enforce'])
+            f = rnd.choice(FILES[:1] * 3 + FILES)
+            if op == 'write':
+                hist.append(['write', f, {'text': rnd_fb_content(rnd, opt, 0.15 if f == FILES[0] else 0.5)}])
+            elif op in ('load', 'enforce'):
+                hist.append([op])
+            else:
+                hist.append([op, f])
+        skip = [j for j in range(len(hist)) if rnd.random() < 0.15]
+        files0 = {f: rnd_fb_content(rnd, opt, 0.6) for f in FILES[1:] if rnd.random() < 0.5}
+        case = dict(s='FR', initial=rnd_fb_content(rnd, opt, 0.2) if rnd.random() < 0.8 else None, files0=files0, kind=0,
+                    flag=rnd.random() < 0.5, fb={'opt': opt}, defs=defs, history=hist, skip=skip, warm=rnd.random() < 0.8)
+        run_history(ctx, case)
+        if i % 3 == 0:
+            ctx.sample(dict(case, history=case['history'][:8] + ['...']), 'FR')
+    ctx.stratum('FR', exhaustive=False)
 
 
 def replay(ctx, case):
